@@ -19,6 +19,7 @@
 #include "vm.h"
 #include "vm_ffi.h"
 #include "../nanoisa/nvm_format.h"
+#include "../nanoisa/verifier.h"
 
 #include <stdio.h>
 #include <stdlib.h>
@@ -205,6 +206,19 @@ static void *client_thread(void *arg) {
 
         if (!module) {
             vmd_msg_send_error(fd, "Invalid .nvm format");
+            break;
+        }
+
+        /* Verify bytecode safety before execution, exactly as standalone nano_vm does: the
+         * daemon must not run what the verifier refuses (a hostile module would otherwise
+         * take the whole daemon down with it). */
+        NvmVerifyResult vr = nvm_verify(module);
+        if (!vr.ok) {
+            char vbuf[512];
+            snprintf(vbuf, sizeof(vbuf), "Error: Bytecode verification failed: %s", vr.error_msg);
+            vmd_msg_send_error(fd, vbuf);
+            vmd_msg_send_exit(fd, 1);
+            nvm_module_free(module);
             break;
         }
 
